@@ -29,6 +29,11 @@ func specFail(format string, a ...interface{}) { panic(specError{fmt.Sprintf(for
 func (se *specEnv) with(st *State) *specEnv {
 	n := *se
 	n.st = st
+	if st == se.fr.entry {
+		// in the function's entry state the local variable cells are not initialised yet:
+		// identifiers denote the parameters' entry values
+		n.preferLocals = false
+	}
 	return &n
 }
 
